@@ -288,10 +288,10 @@ theorem unset_only_when_all_dropped (g : Graph) (hwf : graphWF g = true) (hroot 
       cleanDecision (visH g hid) sd n w = .ok true ∧
       (reqs ≠ [] ∧ ∀ vs ∈ reqs, vs ∈ (g.node n).sets ∧ (unsetModeOf (g.node n) vs.1).toList.head? = some 'f') ∧
       (isReversible (g.node n) = true →
-        isFinished (visH g hid) sd n w (-1) = true ∧
-        ∀ v ∈ involved (visH g hid) sd n,
+        isFinished g sd n w (-1) = true ∧
+        ∀ v ∈ involved g sd n,
           ((g.worker w).swarm == "localhost" || strIn (g.worker w).swarm (g.worker v).id) = true →
-          ∃ m, (if g.idIn v n then some n else ((visH g hid).copies n).tail.find? (fun m => g.idIn v m)) = some m ∧
+          ∃ m, (if g.idIn v n then some n else (g.copies n).tail.find? (fun m => g.idIn v m)) = some m ∧
             isCleanupReady (visH g hid) sd m v = true ∧ (sd.nd m).results.all (fun r => lower r.status != "unknown") = true ∧
             ∀ c ∈ ((visH g hid).node m).cleanup, relevant g v c.1 = true → (g.node c.1).flat = false →
               ∃ c', c' < g.nodes.length ∧ (g.node c').cls = (g.node c.1).cls ∧ (g.node c').owner = some v ∧
@@ -309,12 +309,38 @@ theorem unset_only_when_all_dropped (g : Graph) (hwf : graphWF g = true) (hroot 
     rw [hreq] at hvs
     exact ⟨by rw [← hsn.sets]; exact a6 vs hvs, by rw [← unsetModeOf_sameNodes hsn]; exact a1 vs hvs⟩
   · obtain ⟨hfin, hall⟩ := clean_requires_all_ready (visH g hid) sd n w (by rw [isReversible_sameNodes hsn]; exact hrev) hcd
-    refine ⟨hfin, fun v hv hsw => ?_⟩
-    obtain ⟨m, hm, hcr, hres⟩ := hall v hv (by rw [hsn.worker, hsn.worker]; exact hsw)
+    refine ⟨by rw [← isFinished_sameNodes hsn]; exact hfin, fun v hv hsw => ?_⟩
+    obtain ⟨m, hm, hcr, hres⟩ := hall v (by rw [involved_sameNodes hsn]; exact hv) (by rw [hsn.worker, hsn.worker]; exact hsw)
     refine ⟨m, ?_, hcr, hres, ?_⟩
     · rw [← hm]
-      simp only [idIn_sameNodes hsn]
+      simp only [idIn_sameNodes hsn, copies_sameNodes hsn]
     · exact cleanup_ready_children_traversed g hwf hO hF td (visH g hid) hsn (fun n c => visH_cleanup_sub g hid n c) m v hcr
+
+/-- … on a pre-parsed graph (nothing hidden initially) the decision is taken on the full graph: all dependants count. -/
+theorem unset_only_when_all_dropped_eager (g : Graph) (hwf : graphWF g = true) (hroot : (g.node g.root).flat = true)
+    (hO : OwnerNames g) (hF : FlatClass g) {ncls : Nat} {store : Store} {s : State}
+    (hr : ReachH g ncls store [] s) (w : Nat) (out : Outcome) (fuel : Nat)
+    (wid : String) (reqs : List (String × String)) (sc : List String) (ok : Bool)
+    (he : Event.door wid "unset" reqs sc ok ∈ (resume g s w out fuel).2) :
+    wid = (g.worker w).id ∧ ∃ sd n, Trv g [] sd ∧ (∀ v, v ≠ w → sd.wd v = s.wd v) ∧ n < g.nodes.length ∧
+      (sd.nd n).started = some w ∧ cleanDecision g sd n w = .ok true ∧
+      (isReversible (g.node n) = true →
+        isFinished g sd n w (-1) = true ∧
+        ∀ v ∈ involved g sd n,
+          ((g.worker w).swarm == "localhost" || strIn (g.worker w).swarm (g.worker v).id) = true →
+          ∃ m, (if g.idIn v n then some n else (g.copies n).tail.find? (fun m => g.idIn v m)) = some m ∧
+            isCleanupReady g sd m v = true ∧ (sd.nd m).results.all (fun r => lower r.status != "unknown") = true ∧
+            ∀ c ∈ (g.node m).cleanup, relevant g v c.1 = true → (g.node c.1).flat = false →
+              ∃ c', c' < g.nodes.length ∧ (g.node c').cls = (g.node c.1).cls ∧ (g.node c').owner = some v ∧
+                (sd.nd c').finished = some v) := by
+  obtain ⟨h0, hid, sd, n, _, h2, td, h3, hn, hst, hcd, _, hrev⟩ :=
+    unset_only_when_all_dropped g hwf hroot hO hF hr w out fuel wid reqs sc ok he
+  have : hid = [] := by
+    cases hid with
+    | nil => rfl
+    | cons a r => exact absurd (h2 a List.mem_cons_self) (by simp)
+  subst this
+  exact ⟨h0, sd, n, td, h3, hn, hst, hcd, hrev⟩
 
 /-- the only source of `unset` requests is this: a step that emits none of them removes no state through the door
 (`reuse_states_never_unset` lifted: a node without `f.`-marked set state never appears in an `unset` request) -/
